@@ -134,6 +134,8 @@ func (f pfacts) with(n pfact) pfacts {
 	return append(out, n)
 }
 
+// without is applied when the path (re)computes v: facts about the previous value are dropped,
+// pending facts (learnt about the value v is about to get) become active.
 func (f pfacts) without(v ssa.Value) pfacts {
 	has := false
 	for _, x := range f {
@@ -148,6 +150,8 @@ func (f pfacts) without(v ssa.Value) pfacts {
 	for _, x := range f {
 		if x.v != v {
 			out = append(out, x)
+		} else if x.kind == 'g' {
+			out = append(out, pfact{x.v, 'G', x.k})
 		}
 	}
 	return out
@@ -229,10 +233,95 @@ func (s *Search) evalBool(v ssa.Value, f pfacts) (val bool, known bool) {
 			}
 		}
 	}
+	if x, k, ok := relConst(v); ok {
+		// v is  x >= k
+		for _, pf := range f {
+			if pf.v != x {
+				continue
+			}
+			switch pf.kind {
+			case 'G':
+				if pf.k >= k {
+					return true, true
+				}
+			case 'L':
+				if pf.k <= k {
+					return false, true
+				}
+			case '=':
+				return pf.k >= k, true
+			}
+		}
+	} else if x, k, ok := relConstNeg(v); ok {
+		// v is  x < k
+		for _, pf := range f {
+			if pf.v != x {
+				continue
+			}
+			switch pf.kind {
+			case 'G':
+				if pf.k >= k {
+					return false, true
+				}
+			case 'L':
+				if pf.k <= k {
+					return true, true
+				}
+			case '=':
+				return pf.k < k, true
+			}
+		}
+	}
 	if s.Assume != nil {
 		return s.Assume(v)
 	}
 	return false, false
+}
+
+// relConst decomposes an ordering comparison against a constant into the normal form  x >= k
+// (ok) - or, through relConstNeg, x < k.
+func relNorm(v ssa.Value) (x ssa.Value, k int64, ge bool, ok bool) {
+	b, isb := v.(*ssa.BinOp)
+	if !isb {
+		return nil, 0, false, false
+	}
+	op := b.Op
+	var c int64
+	if n, okc := constInt(b.Y); okc {
+		if _, isC := b.X.(*ssa.Const); isC {
+			return nil, 0, false, false
+		}
+		x, c = stripConv(b.X), n
+	} else if n, okc := constInt(b.X); okc {
+		if _, isC := b.Y.(*ssa.Const); isC {
+			return nil, 0, false, false
+		}
+		x, c = stripConv(b.Y), n
+		op = mirror(op)
+	} else {
+		return nil, 0, false, false
+	}
+	switch op {
+	case token.GEQ:
+		return x, c, true, true
+	case token.GTR:
+		return x, c + 1, true, true
+	case token.LSS:
+		return x, c, false, true
+	case token.LEQ:
+		return x, c + 1, false, true
+	}
+	return nil, 0, false, false
+}
+
+func relConst(v ssa.Value) (ssa.Value, int64, bool) {
+	x, k, ge, ok := relNorm(v)
+	return x, k, ok && ge
+}
+
+func relConstNeg(v ssa.Value) (ssa.Value, int64, bool) {
+	x, k, ge, ok := relNorm(v)
+	return x, k, ok && !ge
 }
 
 var condRootCache = map[*ssa.Function]map[ssa.Value]int{}
@@ -259,6 +348,14 @@ func condRoots(fn *ssa.Function) map[ssa.Value]int {
 		if x, _, _, ok := cmpConst(v); ok {
 			m[x]++
 		}
+		if x, _, _, ok := relNorm(v); ok {
+			m[x]++
+			if phi, ok := x.(*ssa.Phi); ok {
+				for _, e := range phi.Edges {
+					m[stripConv(e)]++
+				}
+			}
+		}
 		m[v]++
 	}
 	for _, b := range fn.Blocks {
@@ -280,8 +377,60 @@ func learn(f pfacts, cond ssa.Value, branch bool) pfacts {
 		return f
 	}
 	var roots map[ssa.Value]int
-	if ins, ok := v.(ssa.Instruction); ok && ins.Parent() != nil {
-		roots = condRoots(ins.Parent())
+	isTemp := false
+	if ins, ok := v.(ssa.Instruction); ok {
+		if ins.Block() == nil {
+			isTemp = true
+		} else if ins.Parent() != nil {
+			roots = condRoots(ins.Parent())
+		}
+	}
+	// ordering between two non-constant values: learn the sign of their difference where the
+	// function computes it (a < b  =>  b-a >= 1), enough to see that `for x := n; x > 0; x -= l`
+	// with `if l >= x { break }` can only leave through the break
+	if b, ok := v.(*ssa.BinOp); ok {
+		if _, xc := b.X.(*ssa.Const); !xc {
+			if _, yc := b.Y.(*ssa.Const); !yc {
+				var hi, lo ssa.Value // hi - lo >= min
+				min := int64(-1 << 62)
+				switch {
+				case (b.Op == token.LSS && br) || (b.Op == token.GEQ && !br): // X < Y
+					hi, lo, min = b.Y, b.X, 1
+				case (b.Op == token.GTR && br) || (b.Op == token.LEQ && !br): // X > Y
+					hi, lo, min = b.X, b.Y, 1
+				case (b.Op == token.LEQ && br) || (b.Op == token.GTR && !br): // X <= Y
+					hi, lo, min = b.Y, b.X, 0
+				case (b.Op == token.GEQ && br) || (b.Op == token.LSS && !br): // X >= Y
+					hi, lo, min = b.X, b.Y, 0
+				}
+				if hi != nil {
+					if refs := hi.Referrers(); refs != nil {
+						for _, ref := range *refs {
+							if d, ok := ref.(*ssa.BinOp); ok && d.Op == token.SUB && d.X == hi && d.Y == lo {
+								f = f.with(pfact{d, 'g', min}) // pending until d is (re)computed
+							}
+						}
+					}
+				}
+			}
+		}
+	}
+	if x, k, ge, ok := relNorm(v); ok {
+		if roots != nil && roots[x] < 2 {
+			if isTemp || roots[v] < 2 {
+				return f
+			}
+		} else {
+			if ge == br {
+				return f.with(pfact{x, 'G', k})
+			}
+			return f.with(pfact{x, 'L', k})
+		}
+	}
+	if isTemp {
+		if _, _, _, ok := cmpConst(v); !ok {
+			return f
+		}
 	}
 	if x, k, eq, ok := cmpConst(v); ok {
 		if roots != nil && roots[x] < 2 && roots[v] < 2 {
@@ -387,7 +536,7 @@ func (s *Search) Find(starts []Start, target func(ins ssa.Instruction) bool, exi
 				succ := n.b.Succs[0]
 				nodes = append(nodes, sstate{succ, 0, predIndex(succ, n.b, 0), q, "", facts})
 			case *ssa.If:
-				cond := resolvePhi(t.Cond, n.b, n.pred)
+				cond := substPhiOperands(resolvePhi(t.Cond, n.b, n.pred), n.b, n.pred)
 				val, known := s.evalBool(cond, facts)
 				for k, succ := range n.b.Succs {
 					branch := k == 0
@@ -771,4 +920,24 @@ func makeClosureFn(v ssa.Value) *ssa.Function {
 		}
 	}
 	return nil
+}
+
+// substPhiOperands: a comparison whose operand is a phi of the current block is evaluated with
+// the value that flows in from the predecessor actually taken (loop-entry tests like
+// `for ack := n; ack >= 0` become `n >= 0` on the entry edge).
+func substPhiOperands(cond ssa.Value, blk *ssa.BasicBlock, pred int) ssa.Value {
+	b, ok := cond.(*ssa.BinOp)
+	if !ok || pred < 0 {
+		return cond
+	}
+	switch b.Op {
+	case token.EQL, token.NEQ, token.LSS, token.LEQ, token.GTR, token.GEQ:
+	default:
+		return cond
+	}
+	x, y := resolvePhi(b.X, blk, pred), resolvePhi(b.Y, blk, pred)
+	if x == b.X && y == b.Y {
+		return cond
+	}
+	return &ssa.BinOp{Op: b.Op, X: x, Y: y}
 }
